@@ -446,12 +446,12 @@ Proof. unfold iotaZ. apply nodup_map_inj; [apply seq_NoDup | intros a b _ _ E; l
 Lemma member_slice m its sh' : MemberOk m -> no_special its -> (length its <= length (mal m))%nat ->
   sliced_shape (mshape m) (member_item m its) = Ok sh' ->
   let drops := int_positions 0 its in
-  let m' := mkM (mkey m) sh' (renumber_spec (mal m) drops) in
+  forall sq, let m' := mkM (mkey m) sh' (renumber_spec (mal m) drops) sq in
   MemberOk m' /\
   aligned_lens m' = map (fun j => the_len (znth j (aligned_lens m) 0) (nth (Z.to_nat j) its full_slice))
                         (remove_positions 0 drops (iotaZ (length (mal m)))).
 Proof.
-  intros [Hnd Hr] Hns Hlen Hs drops m'.
+  intros [Hnd Hr] Hns Hlen Hs drops sq m'.
   set (al := mal m) in *. set (shape := mshape m) in *. set (rank := length shape).
   set (items := member_item m its) in *.
   assert (Hr0 : Forall (fun a => 0 <= a) al) by (eapply Forall_impl; [|exact Hr]; cbv beta; intros; lia).
@@ -574,13 +574,31 @@ Proof. induction 1 as [|a b l1 l2 Hab H IH]; intros Hk; [reflexivity|]. cbn [map
 Lemma upd_axes_nil axes : upd_axes axes [] = axes.
 Proof. reflexivity. Qed.
 
+(* what slicing does to one member, cube or sequence *)
+Theorem slice_member_spec m its m' : slice_member m its = Ok m' ->
+  exists sh, sliced_shape (mshape m) (member_item m its) = Ok sh /\
+    mkey m' = mkey m /\ mshape m' = sh /\ mal m' = mal m /\
+    mseq m' = (mseq m && negb (match member_item m its with it :: _ => is_int it | [] => false end))%bool /\
+    (if mseq m' then tl sh else sh) <> [].
+Proof.
+  unfold slice_member. intros H. destruct (sliced_shape (mshape m) (member_item m its)) as [sh|] eqn:Es; [|discriminate].
+  exists sh. split; [reflexivity|].
+  set (sq := (mseq m && negb (match member_item m its with it :: _ => is_int it | [] => false end))%bool) in *.
+  destruct (if sq then tl sh else sh) as [|x l] eqn:E; [discriminate|]. inversion H. cbn [mkey mshape mal mseq].
+  repeat split. rewrite E. discriminate.
+Qed.
+
 Theorem slice_preserves c its c' : Inv c -> no_special its -> coll_slice c its = Ok c' -> Inv c'.
 Proof.
   intros HI Hns H. unfold coll_slice in H.
   destruct (aligned c) eqn:Eal; cbn [negb] in H; [|discriminate].
   destruct (Nat.ltb (n_aligned c) (length its)) eqn:Elen; [discriminate|]. apply Nat.ltb_ge in Elen.
-  set (F := fun m => match sliced_shape (mshape m) (member_item m its) with
-                     | Ok [] => Err EValue | Ok sh => Ok (mkM (mkey m) sh (mal m)) | Err e => Err e end) in H.
+  set (F := fun m => slice_member m its) in H.
+  assert (HFs : forall m m', F m = Ok m' -> exists sh, sliced_shape (mshape m) (member_item m its) = Ok sh /\
+                                             m' = mkM (mkey m) sh (mal m) (mseq m')).
+  { intros m m' Hmm. unfold F, slice_member in Hmm. destruct (sliced_shape (mshape m) (member_item m its)) as [sh|] eqn:Es; [|discriminate].
+    exists sh. split; [reflexivity|]. match type of Hmm with match ?x with [] => _ | _ => _ end = _ => destruct x; [discriminate|] end.
+    inversion Hmm. reflexivity. }
   destruct (mapr F (members c)) as [ms'|] eqn:Em; [|discriminate].
   pose proof (mapr_Forall2 _ _ _ Em) as HF2.
   destruct HI as [Hk HI]. rewrite Eal in HI. destruct HI as [Hok Hlens].
@@ -594,7 +612,7 @@ Proof.
     lia. }
   (* the relation between a member and what becomes of it *)
   set (R := fun (m n : member) => exists sh, sliced_shape (mshape m) (member_item m its) = Ok sh /\
-                                 n = mkM (mkey m) sh (renumber_spec (mal m) drops)).
+                                 n = mkM (mkey m) sh (renumber_spec (mal m) drops) (mseq n)).
   assert (Hupd : forall m, In m (members c) -> upd_axes (mal m) drops = renumber_spec (mal m) drops).
   { intros m Hm. destruct (Hok m Hm) as [Hnd Hr]. apply upd_axes_spec; [exact Hasc | | exact Hnd].
     eapply Forall_impl; [|exact Hdr]. cbv beta. intros d Hd. specialize (Hn m Hm). unfold zlen in *. lia. }
@@ -606,24 +624,23 @@ Proof.
       - inversion Eu. apply map_ext. intros m. symmetry. apply upd_axes_nil.
       - destruct (members c) as [|m0 t]; [inversion Eu; reflexivity|].
         destruct (Nat.eqb (length (d :: ds)) (length (mal m0))); [discriminate|]. inversion Eu. reflexivity. }
-    assert (HR : Forall2 R (members c) (map (fun '(m, al) => mkM (mkey m) (mshape m) al) (combine ms' als))).
+    assert (HR : Forall2 R (members c) (map (fun '(m, al) => mkM (mkey m) (mshape m) al (mseq m)) (combine ms' als))).
     { rewrite Hals.
       assert (G : forall ms0, (forall m, In m ms0 -> In m (members c)) -> forall ms1, Forall2 (fun x y => F x = Ok y) ms0 ms1 ->
-                  Forall2 R ms0 (map (fun '(m, al) => mkM (mkey m) (mshape m) al) (combine ms1 (map (fun m => upd_axes (mal m) drops) ms0)))).
+                  Forall2 R ms0 (map (fun '(m, al) => mkM (mkey m) (mshape m) al (mseq m)) (combine ms1 (map (fun m => upd_axes (mal m) drops) ms0)))).
       { intros ms0 Hsub ms1 H2. induction H2 as [|m m' l1 l2 Hmm H2 IH]; [constructor|]. cbn [map combine]. constructor.
-        - unfold F in Hmm. destruct (sliced_shape (mshape m) (member_item m its)) as [sh|] eqn:Es; [|discriminate].
-          exists sh. split; [exact Es|]. destruct sh as [|s0 sh0]; [discriminate|]. inversion Hmm; subst m'. cbn [mkey mshape].
+        - destruct (HFs m m' Hmm) as (sh & Es & Em'). exists sh. split; [exact Es|]. rewrite Em'. cbn [mkey mshape mseq].
           rewrite (Hupd m (Hsub m (or_introl eq_refl))). reflexivity.
         - apply IH. intros x Hx. apply Hsub. right. exact Hx. }
       apply (G (members c)); [tauto | exact HF2]. }
     unfold Inv. cbn [members aligned]. split; [|split].
-    + rewrite (Forall2_map_keys R mkey mkey _ _ HR); [exact Hk|]. intros x y (sh & _ & ->). reflexivity.
-    + intros n Hin. destruct (Forall2_in_r _ _ _ _ HR Hin) as (m & Hm & sh & Es & ->).
+    + rewrite (Forall2_map_keys R mkey mkey _ _ HR); [exact Hk|]. intros x y (sh & _ & Ey). rewrite Ey. reflexivity.
+    + intros n Hin. destruct (Forall2_in_r _ _ _ _ HR Hin) as (m & Hm & sh & Es & En). rewrite En.
       apply (member_slice m its sh (Hok m Hm) Hns (Hn m Hm) Es).
-    + intros n n' Hin Hin'. destruct (Forall2_in_r _ _ _ _ HR Hin) as (m & Hm & sh & Es & ->).
-      destruct (Forall2_in_r _ _ _ _ HR Hin') as (m2 & Hm2 & sh2 & Es2 & ->).
-      pose proof (proj2 (member_slice m its sh (Hok m Hm) Hns (Hn m Hm) Es)) as E1. cbv zeta in E1. fold drops in E1. rewrite E1.
-      pose proof (proj2 (member_slice m2 its sh2 (Hok m2 Hm2) Hns (Hn m2 Hm2) Es2)) as E2. cbv zeta in E2. fold drops in E2. rewrite E2.
+    + intros n n' Hin Hin'. destruct (Forall2_in_r _ _ _ _ HR Hin) as (m & Hm & sh & Es & En).
+      destruct (Forall2_in_r _ _ _ _ HR Hin') as (m2 & Hm2 & sh2 & Es2 & En2). rewrite En, En2.
+      pose proof (proj2 (member_slice m its sh (Hok m Hm) Hns (Hn m Hm) Es (mseq n))) as E1. cbv zeta in E1. fold drops in E1. rewrite E1.
+      pose proof (proj2 (member_slice m2 its sh2 (Hok m2 Hm2) Hns (Hn m2 Hm2) Es2 (mseq n'))) as E2. cbv zeta in E2. fold drops in E2. rewrite E2.
       pose proof (Hlens m m2 Hm Hm2) as El. rewrite El.
       assert (Ell : length (mal m) = length (mal m2)) by (apply (f_equal (@length Z)) in El; unfold aligned_lens in El; rewrite !map_length in El; exact El).
       rewrite Ell. reflexivity.
@@ -631,7 +648,7 @@ Proof.
     inversion H; subst c'; clear H. unfold Inv. cbn [members aligned]. split.
     + rewrite map_map. cbn [mkey]. change (map (fun x : member => mkey x) ms') with (map mkey ms').
       rewrite (Forall2_map_keys (fun x y => F x = Ok y) mkey mkey _ _ HF2); [exact Hk|].
-      intros x y Hxy. unfold F in Hxy. destruct (sliced_shape (mshape x) (member_item x its)) as [[|s0 sh0]|]; try discriminate. inversion Hxy. reflexivity.
+      intros x y Hxy. destruct (HFs x y Hxy) as (sh & _ & Ey). rewrite Ey. reflexivity.
     + intros n Hin. apply in_map_iff in Hin. destruct Hin as (m & <- & _). reflexivity.
 Qed.
 
